@@ -34,6 +34,8 @@ type Case struct {
 	Models []ModelSpec `json:"models"`
 	Lights int         `json:"lights"`
 	GLB    bool        `json:"glb"`
+	// SaveSeq: a sequence of SaveText / SaveBinary calls of saveScenes[i] to one path (saveover.go)
+	SaveSeq []int `json:"save_seq,omitempty"`
 }
 
 func (cs Case) key() string {
